@@ -38,7 +38,11 @@ type Case struct {
 	// Reuse: one Set object is reset and refilled for every send (as applications do to avoid
 	// allocations), instead of a fresh set per message.
 	Reuse bool   `json:"reuse,omitempty"`
-	Steps []Step `json:"steps"`
+	// IDBase: the three templates use ids IDBase..IDBase+2 (0: 256). A base below 256 lies in the
+	// range RFC 7011 reserves; the library does not refuse such ids, and as long as it transmits
+	// the sets they count like any other (a refusal ends the case without a verdict).
+	IDBase uint16 `json:"id_base,omitempty"`
+	Steps  []Step `json:"steps"`
 }
 
 var rec *ev.Recorder
@@ -56,7 +60,7 @@ func TestMain(m *testing.M) {
 	if rp := ev.LoadReplay(); rp != nil {
 		ev.RunReplay(rp, runCase)
 	}
-	rec = ev.New("C08", "sessions of 1..40 successful SendSet calls (template sets; data sets of 1..200 records of three templates) over tcp and udp, the sequence counter started at 0 or at 2^32-k (k in 0..300, through the verif setter) so that the wrap is crossed; each captured header is parsed by the reference codec; non-trivial = at least two data sets of different sizes with a template set between them; distinct by hash of the case",
+	rec = ev.New("C08", "sessions of 1..40 successful SendSet calls (template sets; data sets of 1..200 records of three templates with ids from 256, 1000, 65533 or the reserved range below 256) over tcp and udp, the sequence counter started at 0 or at 2^32-k (k in 0..300, through the verif setter) so that the wrap is crossed; each captured header is parsed by the reference codec; non-trivial = at least two data sets of different sizes with a template set between them; distinct by hash of the case",
 		"reference codec refipfix", "verif hook VerifSetSeqNumber only assigns the counter before the first send", "the wall clock does not step backwards during a case")
 	code := m.Run()
 	rec.Write()
@@ -88,10 +92,15 @@ func runCase(c Case) *ev.Failure {
 		return entities.NewSet(false)
 	}
 	defined := map[int]bool{}
+	idBase := c.IDBase
+	if idBase == 0 {
+		idBase = 256
+	}
+	reserved := idBase < 256
 	for i, s := range c.Steps {
 		w := s.Which % len(templates)
 		fields := templates[w]
-		id := uint16(256 + w)
+		id := idBase + uint16(w)
 		var n int
 		var wantLen int
 		isTpl := s.Tpl || !defined[w]
@@ -99,10 +108,16 @@ func runCase(c Case) *ev.Failure {
 		if isTpl {
 			set, err := exph.TemplateSetInto(newSet(), id, fields, i%3)
 			if err != nil {
+				if reserved {
+					return nil
+				}
 				return ev.Failf("step %d: %v", i, err)
 			}
 			wantLen = len(ref.TemplateMessage(ref.Header{}, ref.Template{ID: id, Fields: fields}))
 			if n, err = ep.SendSet(set); err != nil {
+				if reserved {
+					return nil
+				}
 				return ev.Failf("step %d: template SendSet failed: %v", i, err)
 			}
 			defined[w] = true
@@ -149,10 +164,16 @@ func runCase(c Case) *ev.Failure {
 				set, err = exph.DataSetInto(newSet(), id, fields, recs, i%3)
 			}
 			if err != nil {
+				if reserved {
+					return nil
+				}
 				return ev.Failf("step %d: %v", i, err)
 			}
 			wantLen = len(ref.DataMessage(ref.Header{}, ref.Template{ID: id, Fields: fields}, recs))
 			if n, err = ep.SendSet(set); err != nil {
+				if reserved {
+					return nil
+				}
 				return ev.Failf("step %d: data SendSet (%d records) failed: %v", i, s.NRecs, err)
 			}
 			expSeq += uint32(s.NRecs)
@@ -204,6 +225,7 @@ func genCase(t *rapid.T) Case {
 		Domain: rapid.SampledFrom([]uint32{0, 1, 42, 0xFFFFFFFF, 0x01020304}).Draw(t, "domain"),
 	}
 	c.Reuse = rapid.Bool().Draw(t, "reuse")
+	c.IDBase = rapid.SampledFrom([]uint16{0, 0, 0, 1000, 65533, 253, 10}).Draw(t, "id_base")
 	if rapid.Bool().Draw(t, "nearwrap") {
 		c.Start = uint32(0x100000000 - uint64(rapid.IntRange(0, 300).Draw(t, "k")))
 	} else if rapid.IntRange(0, 3).Draw(t, "startrnd") == 0 {
